@@ -18,6 +18,16 @@ def H(name, oblig, kind='proof', bound='', tier='quick', witness_for=None, funct
 HOOK_COMMITS = ['3254cbd2', '27e1b456', '140569c3', '6e63a402']
 
 PROPS = {
+    'C07': dict(
+        title='Any message survives chunking and channel security unchanged',
+        level='proof',
+        level_text='Partial. Deductive proof (Verus, all sizes) that the real padding/signature/body-size functions equal spec functions written from Part 6 (strongest postconditions) and, over those, that what is encrypted is a whole number of cipher blocks and that a chunk filled to the computed body size never exceeds the negotiated size (outside the listed finding).',
+        level_note='Covers symmetric (MSG/CLO) chunks; OPN/RSA sizes and the crypto round trip (OpenSSL) are assumed. Environment contracts standing for repository code (header byte_len, make_security_header) are re-checked by Kani on the real functions. Known finding: chunk overshoot for certain residues of the chunk size.',
+        technique='Verus strongest-postcondition contracts on mechanically extracted real functions + arithmetic lemmas',
+        verus=['c07_sizes'],
+        kani=[],
+        explanation='size/structure half of C07 for symmetric chunks',
+    ),
     'C22': dict(
         title='Keep-alives keep flowing and idle subscriptions expire on time',
         level='proof',
